@@ -27,6 +27,7 @@ HARNESSES = {
     "slhist": ("slhist.cpp", []),
     "ptralg": ("ptralg.cpp", []),
     "slots": ("slots.cpp", []),
+    "litmus": ("litmus.cpp", []),
 }
 
 
